@@ -45,8 +45,9 @@ class PITBatchNorm2d(nn.BatchNorm2d, PITModule):
                 cast(torch.Tensor, self.running_mean).copy_(bn.running_mean)
             if bn.running_var is not None:
                 cast(torch.Tensor, self.running_var).copy_(bn.running_var)
-            self.weight.copy_(bn.weight)
-            self.bias.copy_(bn.bias)
+            if bn.affine:
+                self.weight.copy_(bn.weight)
+                self.bias.copy_(bn.bias)
 
     @staticmethod
     def autoimport(n: fx.Node, mod: fx.GraphModule, fm: PITFeaturesMasker, fold_bn: bool):
@@ -95,8 +96,9 @@ class PITBatchNorm2d(nn.BatchNorm2d, PITModule):
             submodule.affine,
             submodule.track_running_stats)
         with torch.no_grad():
-            new_submodule.weight.copy_(submodule.weight[cout_mask])
-            new_submodule.bias.copy_(submodule.bias[cout_mask])
+            if submodule.affine:
+                new_submodule.weight.copy_(submodule.weight[cout_mask])
+                new_submodule.bias.copy_(submodule.bias[cout_mask])
             if submodule.running_mean is None:
                 new_submodule.running_mean = None
             else:
